@@ -440,11 +440,13 @@ theorem phaseTasks_sameCtl (sem : Sem σ δ) (s : RState σ δ) : SameCtl s (pha
 theorem cyclePhases_sameCtl (sem : Sem σ δ) (p : Phase σ δ) (hp : p ∈ cyclePhases sem) (s : RState σ δ) :
     SameCtl s (p s).st := by
   simp only [cyclePhases, List.mem_cons, List.not_mem_nil, or_false] at hp
-  rcases hp with rfl | rfl | rfl | rfl | rfl | rfl | rfl
+  rcases hp with rfl | rfl | rfl | rfl | rfl | rfl | rfl | rfl | rfl
+  · exact ⟨rfl, rfl, rfl, rfl, rfl, rfl, rfl⟩
   · exact ⟨rfl, rfl, rfl, rfl, rfl, rfl, rfl⟩
   · exact ⟨rfl, rfl, rfl, rfl, rfl, rfl, rfl⟩
   · exact ⟨rfl, rfl, rfl, rfl, rfl, rfl, rfl⟩
   · exact phaseTasks_sameCtl sem s
+  · exact ⟨rfl, rfl, rfl, rfl, rfl, rfl, rfl⟩
   · exact ⟨rfl, rfl, rfl, rfl, rfl, rfl, rfl⟩
   · exact ⟨rfl, rfl, rfl, rfl, rfl, rfl, rfl⟩
   · exact ⟨rfl, rfl, rfl, rfl, rfl, rfl, rfl⟩
